@@ -88,7 +88,7 @@ func zvBFollow(q vrt.ConcInst) bool {
 }
 
 func zvBRun(pid string, kinds []int, share, lin bool) {
-	vrt.ConcShapes = 2 // pairs and triples (2 x 2 programs over a tree do not fit the budget)
+	vrt.ConcShapes = 1 // pairs only, also in the thorough tier (triples over a tree exceed 25 min); thorough enlarges the pre-states instead
 	ks, vs := zvPre()
 	prog := vrt.ConcProgram(vrt.ConcShape(), kinds)
 	vrt.ConcCheck(pid, "BsTree", zvMkTree(ks, vs), prog, vrt.ConcKeys(ks, prog), share, lin, zvBFollow)
